@@ -36,6 +36,51 @@ class Violation:
                 "line_now": self.line, "details": self.details[:40]}
 
 
+_PAR = None
+
+
+class _Recorder:
+    """Stand-in for Ctx inside a forked worker: records the calls, exposes the read-only attributes."""
+
+    def __init__(self, ctx):
+        self.calls = []
+        self.tier, self.root, self.pid, self.jobs, self.seed = ctx.tier, ctx.root, ctx.pid, 1, ctx.seed
+        self.rule_counts = dict(ctx.rule_counts)
+        self.extra = {}
+        self.violations = {}
+
+    def instance(self, *a, **kw):
+        self.calls.append(("instance", a, kw))
+        self.rule_counts[a[0]] = self.rule_counts.get(a[0], 0) + kw.get("n", 1)
+
+    def violation(self, *a, **kw):
+        self.calls.append(("violation", tuple(str(x) if not isinstance(x, (int, type(None))) else x for x in a),
+                           {k: (str(v) if v is not None else None) for k, v in kw.items()}))
+        self.violations[len(self.violations)] = True
+
+    def note(self, s):
+        self.calls.append(("note", (s,), {}))
+
+    def parallel(self, items, body, min_items=0):
+        return [body(self, it) for it in items]
+
+
+def _par_chunk(rng):
+    body, items, ctx = _PAR
+    out = []
+    for i in range(*rng):
+        rec = _Recorder(ctx)
+        try:
+            val = body(rec, items[i])
+            err = None
+        except BaseException as e:   # reported in the parent, in order
+            val, err = None, (type(e).__name__, str(e))
+        out.append((rec.calls, val, err))
+        if err is not None:
+            break
+    return out
+
+
 class Ctx:
     """Per-run context handed to the rule module."""
 
@@ -90,6 +135,36 @@ class Ctx:
 
     def note(self, s):
         self.notes.append(s)
+
+    # -- parallel evaluation of independent rule instances -------------------
+    def parallel(self, items, body, min_items=24):
+        """body(ctx, item) -> value, for every item, in forked worker processes.  Inside the body only ctx.instance /
+        ctx.violation / ctx.note may be used; these calls are recorded in the worker and replayed here in item order,
+        so the result does not depend on scheduling.  Returns the list of values (picklable)."""
+        items = list(items)
+        n = max(1, min(self.jobs, 16))
+        if n == 1 or len(items) < min_items:
+            return [body(self, it) for it in items]
+        import multiprocessing as mp
+        global _PAR
+        _PAR = (body, items, self)
+        size = max(1, len(items) // (n * 6))
+        ranges = [(i, min(i + size, len(items))) for i in range(0, len(items), size)]
+        with mp.get_context("fork").Pool(n) as pool:
+            parts = pool.map(_par_chunk, ranges, chunksize=1)
+        out = []
+        for part in parts:
+            for calls, val, err in part:
+                for name, a, kw in calls:
+                    getattr(self, name)(*a, **kw)
+                if err is not None:
+                    from .model import AnalysisError
+                    kind, msg = err
+                    if kind == "AnalysisError":
+                        raise AnalysisError(msg)
+                    raise RuntimeError(f"{kind}: {msg}")
+                out.append(val)
+        return out
 
     # -- finish ------------------------------------------------------------
     def finish(self, error: str | None = None) -> int:
